@@ -369,6 +369,19 @@ Theorem c09_rng_fill_total :
 Proof. exact fill_rand_length. Qed.
 Print Assumptions c09_rng_fill_total.
 
+(* rngChacha8: the same counter discipline around an arbitrary generator `next` *)
+Theorem c09_rng_chacha_counter :
+  forall (gen : Type) (next : gen -> Z -> gen * list Z) (reseed : nat -> gen -> gen) (ns : list Z) (r : crng gen),
+    crng_inv gen r ->
+    crng_inv gen (fst (c_reads gen next reseed ns r)) /\
+    (c_count r = c_reseedInterval -> c_update gen reseed r = mkCrng (S (c_epoch r)) (reseed (c_epoch r) (c_gen r)) 0) /\
+    (c_count r <> c_reseedInterval -> c_update gen reseed r = mkCrng (c_epoch r) (c_gen r) (c_count r + 1)).
+Proof.
+  exact (fun gen next reseed ns r H =>
+           conj (c_reads_inv gen next reseed ns r H) (proj2 (c_update_spec gen reseed r H))).
+Qed.
+Print Assumptions c09_rng_chacha_counter.
+
 Example c09_rng_example :
   rng_inv Z ex_rng /\
   (let '(r, outs) := rng_reads Z toy_E ex_fresh [16; 12; 16; 0; 16] ex_rng in
